@@ -63,7 +63,7 @@ def run(ctx):
                 'a case is one (options, operator, operands) compared with the default options')
     ctx.lean_prepare()
     rng = ctx.rng
-    sigs = [[1, 1], [1, 1, 1], [1, -1, 1], [0, 1, 1], [1, 1, 0]] if ctx.quick else \
+    sigs = [[1, 1], [1, 1, 1], [1, -1, 1], [0, 1, 1]] if ctx.quick else \
         [[1, 1], [1, -1], [1, 1, 1], [1, -1, 1], [0, 1, 1], [1, 1, 0], [1, 1, 1, 1], [0, 1, 1, 1], [1, 1, 1, -1], [0, 0, 1]]
     option_sets = []
     for cse, graded, symcls, wrapper in itertools.product((True, False), (False, True), (None, 'sympy'), (None, 'ident', 'closure')):
@@ -130,7 +130,12 @@ def run(ctx):
                 ctx.violation('construct-raises', {'sig': sig, 'options': opts}, 'an algebra', repr(e)[:200], key='construct')
                 continue
             heavy_sym = opts['symcls'] is not None
-            for c, base in zip(cases, baseline):
+            # two passes over the cases on the same algebra object: the second one (shuffled) re-evaluates every pattern
+            # after all the others have been generated (name-keyed routes must still serve the right function)
+            order = list(zip(cases, baseline))
+            second = list(order)
+            rng.shuffle(second)
+            for c, base in order + [(c, b) for c, b in second if b[0] == 'ok' and (opts['wrapper'] or opts['graded'])]:
                 op, kx, vx, ky, vy = c
                 if heavy_sym and (d >= 3 and op in ('sw', 'proj', 'div', 'inv', 'outerexp', 'outersin', 'outercos', 'normsq') and len(kx) > 3):
                     continue
